@@ -120,13 +120,109 @@ func scribble(b []byte) {
 // garbage as soon as the constructor has returned; an object that kept a
 // reference into them computes wrong tags from then on.
 func newLibS(o Obj, scrib bool) cbcmac.BlockCipherMAC {
-	k1, k2 := o.keys() // fresh slices on every call
-	m := buildLib(o, k1, k2)
+	km := newKeyMat(o, kfExact) // fresh slices on every call; not verified here (fresh-object reference, constructor sweep)
+	m := buildLib(o, km.k1, km.k2)
 	if scrib {
-		scribble(k1)
-		scribble(k2)
+		km.scribbleKeys()
 	}
 	return m
+}
+
+// Flavours of the key slices handed to the constructors. Constructor
+// arguments are caller memory too: a constructor (or a later operation
+// deriving a subkey lazily) must not write to them, to their spare capacity
+// or to their neighbours in a shared key-material buffer.
+const (
+	kfExact = 0 // two separate slices, len == cap
+	kfSpare = 1 // two separate slices with sentinel-filled spare capacity
+	kfViews = 2 // views into ONE buffer: canary | k1 | gap | k2 | room for a k3 | canary (plain sub-slices: cap runs to the end of the buffer)
+)
+
+var keyFlavNames = []string{"keys:exact-slices", "keys:spare-capacity", "keys:views-into-one-buffer"}
+
+// keyMat is the caller's key memory: the slices handed to the constructors,
+// the buffers behind them and a private copy of every byte of those buffers.
+type keyMat struct {
+	k1, k2      []byte
+	bufs, wants [][]byte
+}
+
+func newKeyMat(o Obj, flav int) *keyMat {
+	a, b := o.keys()
+	n := len(a)
+	fill := func(size int) []byte {
+		buf := make([]byte, size)
+		for i := range buf {
+			buf[i] = sentinel
+		}
+		return buf
+	}
+	km := &keyMat{}
+	switch flav {
+	case kfExact:
+		km.k1, km.k2 = append(make([]byte, 0, n), a...), append(make([]byte, 0, n), b...)
+		km.bufs = [][]byte{km.k1, km.k2}
+	case kfSpare:
+		b1, b2 := fill(n+1), fill(2*n+5)
+		copy(b1, a)
+		copy(b2, b)
+		km.k1, km.k2 = b1[:n], b2[:n]
+		km.bufs = [][]byte{b1, b2}
+	case kfViews:
+		buf := fill(4 + n + 3 + n + n + 4)
+		km.k1 = buf[4 : 4+n]
+		km.k2 = buf[4+n+3 : 4+n+3+n]
+		copy(km.k1, a)
+		copy(km.k2, b)
+		km.bufs = [][]byte{buf}
+	default:
+		panic("bad key flavour")
+	}
+	km.rebase()
+	return km
+}
+
+// rebase records what the caller's key memory holds now.
+func (km *keyMat) rebase() {
+	km.wants = km.wants[:0]
+	for _, b := range km.bufs {
+		km.wants = append(km.wants, append([]byte{}, b...))
+	}
+}
+
+// scribbleKeys: the caller reuses its key memory for something else.
+func (km *keyMat) scribbleKeys() {
+	for _, b := range km.bufs {
+		scribble(b)
+	}
+	km.rebase()
+}
+
+// verify: nothing the library did wrote to the caller's key memory.
+func (km *keyMat) verify(o Obj, after string) error {
+	for i, b := range km.bufs {
+		if !bytes.Equal(b, km.wants[i]) {
+			return fmt.Errorf("%v: the caller's key memory (key slices, their spare capacity and neighbours; buffer %d) was %s and is %s after %s: the library wrote to a constructor argument",
+				o, i, h.Hex(km.wants[i]), h.Hex(b), after)
+		}
+	}
+	return nil
+}
+
+// newLibK builds the object from key slices of the given flavour, checks
+// that the constructor left the caller's key memory alone and, with scrib,
+// overwrites that memory afterwards. The caller keeps verifying km after
+// every later operation (a lazily derived subkey may write later).
+func newLibK(o Obj, flav int, scrib bool) (cbcmac.BlockCipherMAC, *keyMat, error) {
+	km := newKeyMat(o, flav)
+	m := buildLib(o, km.k1, km.k2)
+	if err := km.verify(o, "the constructor returned"); err != nil {
+		return nil, nil, err
+	}
+	if scrib {
+		km.scribbleKeys()
+	}
+	return m, km, nil
 }
 
 func buildLib(o Obj, k1, k2 []byte) cbcmac.BlockCipherMAC {
@@ -358,10 +454,11 @@ type valCase struct {
 	Seed     uint64
 	Z        int  // flavour of the zero-length message (Len == 0 only): zNil, zEmpty, zBuf0
 	Scribble bool // overwrite keys, message slice and returned tag after each call
+	KeyFlav  int  // flavour of the key slices handed to the constructor: kfExact, kfSpare, kfViews
 }
 
 func (c valCase) Key() string {
-	return fmt.Sprintf("%d/%d/%d/%d/%d/%d/%d/%d/%v", c.Scheme, c.Ci, c.Pad, c.Size, c.Len, c.Content, c.Spare, c.Z, c.Scribble)
+	return fmt.Sprintf("%d/%d/%d/%d/%d/%d/%d/%d/%v/%d", c.Scheme, c.Ci, c.Pad, c.Size, c.Len, c.Content, c.Spare, c.Z, c.Scribble, c.KeyFlav)
 }
 
 // retainer is the mirror image of the scribble discipline: every slice the
@@ -458,7 +555,11 @@ func checkVal(c valCase, r *h.Rec) error {
 		r.Label("scribble")
 	}
 	orig := buildMsg(c.Seed, c.Len, c.Content, bs)
-	m := newLibS(o, c.Scribble)
+	r.Label(keyFlavNames[c.KeyFlav])
+	m, km, err := newLibK(o, c.KeyFlav, c.Scribble)
+	if err != nil {
+		return err
+	}
 	if m.Size() != o.Size {
 		return fmt.Errorf("%v: Size() = %d, requested %d", o, m.Size(), o.Size)
 	}
@@ -469,6 +570,9 @@ func checkVal(c valCase, r *h.Rec) error {
 	var keep retainer
 	tag, err := macCall(m, o, orig, c.Spare, c.Z, c.Scribble, r, &seen, &keep)
 	if err != nil {
+		return err
+	}
+	if err := km.verify(o, "the first MAC"); err != nil {
 		return err
 	}
 	labelFlavours(r, &seen)
@@ -491,6 +595,9 @@ func checkVal(c valCase, r *h.Rec) error {
 		return err
 	}
 	if err := keep.verify(o, "MAC(m'); MAC(m) on the same object"); err != nil {
+		return err
+	}
+	if err := km.verify(o, "MAC(m); MAC(m'); MAC(m)"); err != nil {
 		return err
 	}
 	if !bytes.Equal(again, tag) {
@@ -537,10 +644,10 @@ func enumVal(emit func(valCase), ciphers []int) {
 									if n == 0 && content > 0 {
 										continue
 									}
-									emit(valCase{Obj{scheme, ci, pad, size, ks}, n, content, spare, ks, zBuf0, content%2 == 0})
+									emit(valCase{Obj{scheme, ci, pad, size, ks}, n, content, spare, ks, zBuf0, content%2 == 0, (content + spare) % 3})
 									if n == 0 && spare == 0 {
-										emit(valCase{Obj{scheme, ci, pad, size, ks}, n, content, spare, ks, zNil, true})
-										emit(valCase{Obj{scheme, ci, pad, size, ks}, n, content, spare, ks, zEmpty, false})
+										emit(valCase{Obj{scheme, ci, pad, size, ks}, n, content, spare, ks, zNil, true, kfViews})
+										emit(valCase{Obj{scheme, ci, pad, size, ks}, n, content, spare, ks, zEmpty, false, kfSpare})
 									}
 								}
 							} else {
@@ -555,7 +662,7 @@ func enumVal(emit func(valCase), ciphers []int) {
 								if n == 0 && spare == 0 {
 									z = size % 2 // zNil / zEmpty
 								}
-								emit(valCase{Obj{scheme, ci, pad, size, ks}, n, content, spare, ks, z, i%4 != 3})
+								emit(valCase{Obj{scheme, ci, pad, size, ks}, n, content, spare, ks, z, i%4 != 3, i / 4 % 3})
 								i++
 							}
 						}
@@ -606,10 +713,11 @@ type histCase struct {
 	Ops      []Op
 	Seed     uint64
 	Scribble bool // overwrite keys, every slice argument and every returned slice right after the call
+	KeyFlav  int  // flavour of the key slices handed to the constructor: kfExact, kfSpare, kfViews
 }
 
 func (c histCase) Key() string {
-	s := fmt.Sprintf("%d/%d/%d/%d/%x/%v", c.Scheme, c.Ci, c.Pad, c.Size, c.KeySeed, c.Scribble)
+	s := fmt.Sprintf("%d/%d/%d/%d/%x/%v/%d", c.Scheme, c.Ci, c.Pad, c.Size, c.KeySeed, c.Scribble, c.KeyFlav)
 	for _, op := range c.Ops {
 		s += fmt.Sprintf("|%s%d.%d.%d.%d", op.K[:1], op.N, op.C, op.Spare, op.Z)
 	}
@@ -623,7 +731,11 @@ func checkHist(c histCase, r *h.Rec) error {
 	if c.Scribble {
 		r.Label("scribble")
 	}
-	m := newLibS(o, c.Scribble)
+	r.Label(keyFlavNames[c.KeyFlav])
+	m, km, err := newLibK(o, c.KeyFlav, c.Scribble)
+	if err != nil {
+		return err
+	}
 	cm, isCMAC := m.(cmacFace)
 	if isCMAC != (o.Scheme == 5) {
 		return fmt.Errorf("%v: hash.Hash face present = %v", o, isCMAC)
@@ -727,6 +839,9 @@ func checkHist(c histCase, r *h.Rec) error {
 		if err := keep.verify(o, describe(c.Ops[:i+1])); err != nil {
 			return fmt.Errorf("op %d: %v", i, err)
 		}
+		if err := km.verify(o, describe(c.Ops[:i+1])); err != nil {
+			return fmt.Errorf("op %d: %v", i, err)
+		}
 	}
 	if isCMAC {
 		// every streaming history ends in an observation, twice (Sum; Sum)
@@ -750,6 +865,9 @@ func checkHist(c histCase, r *h.Rec) error {
 		cm.Sum(nil)
 	}
 	if err := keep.verify(o, "the whole history "+describe(c.Ops)); err != nil {
+		return err
+	}
+	if err := km.verify(o, "the whole history "+describe(c.Ops)); err != nil {
 		return err
 	}
 	if len(keep.items) > 1 {
@@ -839,7 +957,7 @@ func TestC19_ReusePairs(t *testing.T) {
 						// zero-length messages rotate through nil / []byte{} / buf[:0]; three quarters scribble
 						emit(histCase{Obj{scheme, ci, pad, size, ks}, []Op{
 							{K: "mac", N: n1, Spare: (i % 3) * bs / 2, Z: i / 2 % 3},
-							{K: "mac", N: n2, Spare: (i / 3 % 3) * bs / 2, Z: i / 5 % 3}}, ks, i%4 != 1})
+							{K: "mac", N: n2, Spare: (i / 3 % 3) * bs / 2, Z: i / 5 % 3}}, ks, i%4 != 1, i / 4 % 3})
 						i++
 					}
 				}
@@ -887,7 +1005,7 @@ func TestC19_CMACPartitions(t *testing.T) {
 							Op{K: "write", N: b, Z: i / 2 % 3},
 							Op{K: "sum", Z: i / 4 % 3, Spare: (i % 3) * bs},
 							Op{K: "write", N: cc, Z: i / 5 % 3, Spare: (i / 7 % 2) * 3})
-						emit(histCase{Obj{5, ci, 0, size, ks}, ops, ks, i%4 != 2})
+						emit(histCase{Obj{5, ci, 0, size, ks}, ops, ks, i%4 != 2, i / 4 % 3})
 						i++
 					}
 				}
@@ -929,7 +1047,7 @@ func TestC19_RandomHistories(t *testing.T) {
 				ops[i].N = 0
 			}
 		}
-		return histCase{o, ops, rapid.Uint64().Draw(t, "seed"), rapid.IntRange(0, 3).Draw(t, "scribble") != 0}
+		return histCase{o, ops, rapid.Uint64().Draw(t, "seed"), rapid.IntRange(0, 3).Draw(t, "scribble") != 0, rapid.IntRange(0, 2).Draw(t, "key-flavour")}
 	}, checkHist)
 }
 
@@ -983,7 +1101,7 @@ func TestC19_CMACStateMachine(t *testing.T) {
 					Z: rapid.IntRange(0, 2).Draw(t, "zero-flavour")})
 			}
 		}
-		return histCase{o, ops, rapid.Uint64().Draw(t, "seed"), rapid.IntRange(0, 3).Draw(t, "scribble") != 0}
+		return histCase{o, ops, rapid.Uint64().Draw(t, "seed"), rapid.IntRange(0, 3).Draw(t, "scribble") != 0, rapid.IntRange(0, 2).Draw(t, "key-flavour")}
 	}, checkHist)
 }
 
@@ -1038,7 +1156,7 @@ func TestC19_LengthBoundaries(t *testing.T) {
 							size = 1 + i/2%(bs-1)
 						}
 						ks := histKey(scheme, ci, pad, n)
-						emit(valCase{Obj{scheme, ci, pad, size, ks}, n, []int{0, 0, 2, 5}[i%4], (i / 2 % 2) * bs, ks, zBuf0, i%3 != 0})
+						emit(valCase{Obj{scheme, ci, pad, size, ks}, n, []int{0, 0, 2, 5}[i%4], (i / 2 % 2) * bs, ks, zBuf0, i%3 != 0, i / 3 % 3})
 						i++
 					}
 				}
@@ -1049,7 +1167,7 @@ func TestC19_LengthBoundaries(t *testing.T) {
 				}
 				for d := -1; d <= 1; d++ {
 					ks := histKey(scheme, ci, 3, d)
-					emit(valCase{Obj{scheme, ci, 3, bs, ks}, 1<<21 + d, 0, 0, ks, zBuf0, d == 0})
+					emit(valCase{Obj{scheme, ci, 3, bs, ks}, 1<<21 + d, 0, 0, ks, zBuf0, d == 0, d + 1})
 				}
 			}
 		}
@@ -1072,7 +1190,7 @@ func TestC19_LengthBoundaries(t *testing.T) {
 				if j%2 == 1 {
 					size = bs / 2
 				}
-				emit(histCase{Obj{5, ci, 0, size, ks}, ops, ks, j%3 != 2})
+				emit(histCase{Obj{5, ci, 0, size, ks}, ops, ks, j%3 != 2, j % 3})
 			}
 		}
 	}, checkHist)
@@ -1136,7 +1254,11 @@ func checkBit(c bitCase, r *h.Rec) error {
 		r.Label("scribble")
 	}
 	var seen [3]bool
-	m := newLibS(o, scrib)
+	r.Label(keyFlavNames[c.Bit/2%3])
+	m, km, err := newLibK(o, c.Bit/2%3, scrib)
+	if err != nil {
+		return err
+	}
 	var keep retainer
 	ta, err := macCall(m, o, a, c.Bit%3, zBuf0, scrib, r, &seen, &keep)
 	if err != nil {
@@ -1147,6 +1269,9 @@ func checkBit(c bitCase, r *h.Rec) error {
 		return err
 	}
 	if err := keep.verify(o, "the MAC of the second message of the pair"); err != nil {
+		return err
+	}
+	if err := km.verify(o, "the two MACs of the pair"); err != nil {
 		return err
 	}
 	if err := checkTag(o, a, ta, r, "one-bit pair, first message"); err != nil {
@@ -1208,6 +1333,132 @@ func TestC19_OneBitPairs(t *testing.T) {
 			}
 		}
 	}, checkBit)
+}
+
+// ---------------------------------------------------------------- constructor arguments are caller memory
+
+// keyCase: several objects built one after the other from the SAME key
+// slices. The constructors take their keys as slices; what they do to those
+// bytes is visible to the caller and to every later constructor call.
+type keyCase struct {
+	Obj
+	KeyFlav  int
+	Len      int
+	Seed     uint64
+	Scribble bool // finally reuse the key memory for something else; the objects must not care
+}
+
+func (c keyCase) Key() string {
+	return fmt.Sprintf("%d/%d/%d/%d/%d/%d/%v", c.Scheme, c.Ci, c.Pad, c.Size, c.KeyFlav, c.Len, c.Scribble)
+}
+
+func checkKeys(c keyCase, r *h.Rec) error {
+	o := c.Obj
+	bs := o.bs()
+	o.label(r)
+	r.NT()
+	r.Label(keyFlavNames[c.KeyFlav])
+	r.Label("keys:three-objects-from-the-same-slices")
+	if c.Scribble {
+		r.Label("scribble")
+	}
+	km := newKeyMat(o, c.KeyFlav)
+	var keep retainer
+	mac := func(m cbcmac.BlockCipherMAC, which string, msgSeed uint64, n int) error {
+		msg := buildMsg(gen.Mix(c.Seed, msgSeed), n, 0, bs)
+		ret := m.MAC(append([]byte{}, msg...))
+		keep.keep(ret, "MAC on "+which)
+		if err := checkTag(o, msg, ret, r, which); err != nil {
+			return err
+		}
+		if err := km.verify(o, "MAC on "+which); err != nil {
+			return err
+		}
+		if cm, ok := m.(cmacFace); ok { // the streaming face derives nothing new, but is an operation too
+			cm.Reset()
+			cm.Write(append([]byte{}, msg...))
+			sum := cm.Sum(nil)
+			keep.keep(sum, "Sum on "+which)
+			if err := checkTag(o, msg, sum, r, which+" (Write; Sum)"); err != nil {
+				return err
+			}
+			if err := km.verify(o, "Write; Sum on "+which); err != nil {
+				return err
+			}
+		}
+		return keep.verify(o, "MAC on "+which)
+	}
+	obj1 := buildLib(o, km.k1, km.k2)
+	if err := km.verify(o, "the first constructor call"); err != nil {
+		return err
+	}
+	obj2 := buildLib(o, km.k1, km.k2)
+	if err := km.verify(o, "the second constructor call with the same key slices"); err != nil {
+		return err
+	}
+	if err := mac(obj1, "the first object built from the key slices", 1, c.Len); err != nil {
+		return err
+	}
+	if err := mac(obj2, "the second object built from the SAME key slices", 1, c.Len); err != nil {
+		return err
+	}
+	obj3 := buildLib(o, km.k1, km.k2)
+	if err := km.verify(o, "the third constructor call (after MACs with the first two objects)"); err != nil {
+		return err
+	}
+	if err := mac(obj3, "the third object built from the SAME key slices, after the first two were used", 1, c.Len); err != nil {
+		return err
+	}
+	// later operations (a lazily derived subkey may write later)
+	for i, m := range []cbcmac.BlockCipherMAC{obj2, obj1, obj3} {
+		if err := mac(m, fmt.Sprintf("object %d of three, second message", []int{2, 1, 3}[i]), 2, c.Len+bs+1); err != nil {
+			return err
+		}
+	}
+	if c.Scribble {
+		// a fourth object that has not computed anything yet when the caller
+		// reuses the key memory (a retained reference for a lazily derived key shows here)
+		obj4 := buildLib(o, km.k1, km.k2)
+		if err := km.verify(o, "the fourth constructor call"); err != nil {
+			return err
+		}
+		km.scribbleKeys()
+		for i, m := range []cbcmac.BlockCipherMAC{obj4, obj1, obj2, obj3} {
+			if err := mac(m, fmt.Sprintf("object %d (4 = not used before), after the caller overwrote the key slices", []int{4, 1, 2, 3}[i]), 3, c.Len+1); err != nil {
+				return err
+			}
+		}
+	}
+	return nil
+}
+
+// TestC19_KeyArguments: every constructor form (plain and ...WithPadding,
+// one-key, two-key and the derived third key of MAC-DES and LMAC) x cipher x
+// key-slice flavour x tag size {bs, short} x a few lengths.
+func TestC19_KeyArguments(t *testing.T) {
+	h.MarkExhaustive("key-arguments")
+	h.Sweep(t, h.P{Name: "key-arguments"}, func(emit func(keyCase)) {
+		i := 0
+		for _, ci := range ciphersForCfg() {
+			bs := ciphBS[ci]
+			for scheme := 1; scheme <= 8; scheme++ {
+				if !validCombo(scheme, ci) {
+					continue
+				}
+				for _, pad := range padVariants(scheme) {
+					for flav := kfExact; flav <= kfViews; flav++ {
+						for _, n := range []int{0, bs - 1, bs, 2*bs + 3} {
+							for _, size := range []int{bs, 1 + i%(bs-1)} {
+								ks := histKey(scheme, ci, pad, flav, n, size)
+								emit(keyCase{Obj{scheme, ci, pad, size, ks}, flav, n, ks, i%2 == 0})
+								i++
+							}
+						}
+					}
+				}
+			}
+		}
+	}, checkKeys)
 }
 
 // ---------------------------------------------------------------- constructor
